@@ -631,9 +631,22 @@ func redefIdiom(p *Prog, fn *ssa.Function, b *ssa.BasicBlock, sl *ssa.Slice, sin
 	return false, ""
 }
 
-// vf01Exceptions: frozen, by function, with reason.
-var vf01Exceptions = map[string]string{
-	"(*segment.Writer).recoverTail": "the CRC read-back buffer is the difference of two scan offsets at each of which a frame header was successfully read from the file, hence below the file size (bounded by the file's own size as the property allows)",
+// vf01RecoveryReason: the one exception to VF-01, attached to the *role* of the function (tail recovery: the function on
+// RecoverTail's path that recomputes the final batch's CRC), not to its name.
+const vf01RecoveryReason = "the CRC read-back buffer is the difference of two scan offsets at each of which a frame header was successfully read from the file, hence below the file size (bounded by the file's own size as the property allows)"
+
+func recoveryFuncs(p *Prog) map[*ssa.Function]bool {
+	out := map[*ssa.Function]bool{}
+	root := p.methodImpl("segment", "Filer", "RecoverTail")
+	if root == nil {
+		return out
+	}
+	for fn := range p.reachableFuncs(root) {
+		if pkgRelOf(p, fn) == "segment" && callsEvent(fn, func(n string) bool { return n == "crc32.Checksum" }) {
+			out[fn] = true
+		}
+	}
+	return out
 }
 
 func runTaint(p *Prog, r *RuleRun, which string) {
@@ -647,6 +660,7 @@ func runTaint(p *Prog, r *RuleRun, which string) {
 		}
 	}
 	ts.run()
+	recov := recoveryFuncs(p)
 	nSources := 0
 	for v := range ts.val {
 		if c, ok := v.(*ssa.Call); ok {
@@ -711,8 +725,8 @@ func runTaint(p *Prog, r *RuleRun, which string) {
 		pos := posOf(p, s.ins)
 		origin := ts.val[s.op]
 		if which == "VF-01" {
-			if why, ok := vf01Exceptions[funcDisplay(s.fn)]; ok {
-				r.OK(key, pos, "tabled exception: "+why)
+			if recov[s.fn] {
+				r.OK(key, pos, "tabled exception: "+vf01RecoveryReason)
 				continue
 			}
 		}
